@@ -36,4 +36,6 @@ __CPROVER_ensures(verif_thrown || !utmp ||
 __CPROVER_ensures(verif_thrown || !utmp ||
                   (*northp == CC_OLDN ? (*y == CC_OLDY || ((CC_OLDY == CC_YMAX(1, CC_OLDN) || CC_OLDY == 10000000.0) && *y > CC_OLDY - 1e-8 && *y < CC_OLDY))
                                       : (*northp ? (*y == CC_OLDY - 10000000.0 || (CC_OLDY == 19500000.0 && *y < 9500000.0 && *y > 9500000.0 - 1e-8))
-                                                 : *y == CC_OLDY + 10000000.0)))
+                                                 : (*y == CC_OLDY + 10000000.0 || (CC_OLDY + 10000000.0 == 10000000.0 && *y < 10000000.0 && *y > 10000000.0 - 1e-8)))))
+/*@ clause post.utm_fold_iff src=header props=C05 */
+__CPROVER_ensures(verif_thrown || !utmp || ((*northp != CC_OLDN) == (CC_OLDN ? CC_OLDY < 0.0 : CC_OLDY > 10000000.0)))
